@@ -61,7 +61,7 @@ The misses and what was changed (every one is caught now; no check was loosened 
 
 * Round 5: 15 of 20 caught at once.  C02 (dtype of the unsigned view computed once from the FIRST element of a
   reference list: a list mixing dtypes is reinterpreted): every reference collection of the harness had a single dtype; kind `mixed` now builds collections whose elements differ in dtype (all 36 ordered pairs, narrow / wide first, first element empty) for every container and bulk entry point.  C03 (ancestor list memoised per ORM object and
-  not invalidated when an ancestor is re-parented: classify, edit the taxonomy, classify again): ROUND5_C03.  C06 (per-thread
+  not invalidated when an ancestor is re-parented: classify, edit the taxonomy, classify again): every database was built, classified once and discarded; kind `edit` now keeps the same ORM objects (transient, in a session, loaded from a file) through 2-6 rounds of curator edits (re-parenting through `.parent`, the `children` backref and `parent_id`, thresholds, report flags, inserted / deleted taxa, moved genomes, flush / commit / expire / rollback) and judges every classification against the tree as it is at that moment.  C06 (per-thread
   scratch accumulator not cleared after a read that fails part-way: the next genome absorbs the leftovers):
   every file the harness read was well-formed, at a fresh path, with nothing run before it; kind `history` now runs 1-5 earlier calls in the same thread (reads failing part-way in six ways, dirty caller accumulators, reused executors, the same path rewritten) before computing the genome through eight entry points.  C09 (report_closest clamped to the database size and written back to the caller's QueryParams: reuse
   against a larger database gives a short list): ROUND5_C09.  C19 (SIGTERM handler calling sys.exit, so that a
